@@ -56,6 +56,8 @@ from typing import TYPE_CHECKING
 from typing import ClassVar
 
 from numpy import array
+from numpy import atleast_1d
+from numpy import atleast_2d
 from numpy import repeat
 from numpy import zeros
 from sklearn.linear_model import ElasticNet
@@ -135,20 +137,25 @@ class LinearRegressor(BaseRegressor):
         self,
         input_data: RealArray,
     ) -> RealArray:
-        return repeat(self.algo.coef_[None], len(input_data), axis=0)
+        return repeat(self.coefficients[None], len(input_data), axis=0)
 
     @property
     def coefficients(self) -> RealArray:
-        """The regression coefficients of the linear model."""
-        return self.algo.coef_
+        """The regression coefficients of the linear model.
+
+        The array is shaped as ``(n_outputs, n_inputs)``,
+        including when scikit-learn stores the coefficients of a single output
+        as a 1D array (``Lasso`` and ``ElasticNet``).
+        """
+        return atleast_2d(self.algo.coef_)
 
     @property
     def intercept(self) -> RealArray:
         """The regression intercepts of the linear model."""
         if self._settings.fit_intercept:
-            return self.algo.intercept_
+            return atleast_1d(self.algo.intercept_)
 
-        return zeros(self.algo.coef_.shape[0])
+        return zeros(self.coefficients.shape[0])
 
     def get_coefficients(
         self,
